@@ -245,6 +245,18 @@ ROUND9 = {
 }
 for _k, _v in ROUND9.items():
     CLAIMED[_k]["text"] += _v
+ROUND10 = {
+ "C04": " The re-open after the replay passes the I/O options of the first open (C04.h; genuine defect repaired).",
+ "C06": " Inline data is copied into a file handle's buffer only after its size was compared with the buffer (C06.n; genuine defect repaired).",
+ "C09": " A failed mapping releases only a block this call allocated (C09.aa; genuine defect repaired).",
+ "C10": " An inline directory gives up its inline copy only when a block can be had (C10.p; genuine defect repaired).",
+ "C15": " A name part longer than 255 bytes is refused (C15.l) and a value file is read whole (C15.m); two genuine defects repaired.",
+ "C16": " An empty tree is not reported as full by find_first_zero (C16.k; genuine defect repaired).",
+ "C19": " Of the qcow2 refcount arithmetic one clause is claimed: a refcount block started for the cluster reserved for an L2 table goes behind it (C19.k).",
+ "C20": " The old last group's backup is released block for block (C20.k; genuine defect repaired).",
+}
+for _k, _v in ROUND10.items():
+    CLAIMED[_k]["text"] += _v
 for _k in CLAIMED:
     CLAIMED[_k]["text"] += " Names of locals, parameters and file-local functions are mapped onto the pinned tree's before any rule runs (renaming all of them is silent)."
 
